@@ -605,12 +605,13 @@ def _fapps(t, acc):
     return acc
 
 
-def _holds_on_cone(ctx, terms, support):
+def _holds_on_cone(ctx, terms):
     """cone-of-influence pre-check of a per-pixel obligation: decide it under only those path constraints that do not mention
     the user function at another pixel's points.  Dropping path constraints weakens the hypothesis, so `unsat` here implies
     `unsat` under the full path condition (pixels are independent; without this z3's nlsat wanders through the other pixels)."""
     import time
-    support = set(support)
+    support = set()
+    terms = [z3.simplify(t) for t in terms]      # path constraints are stored simplified: same normal form of f's arguments
     for t in terms:
         _fapps(t, support)
     cf = [(c, _fapps(c, set())) for c in ctx.constraints]
@@ -625,9 +626,12 @@ def _holds_on_cone(ctx, terms, support):
     s = z3.Solver()
     s.set("timeout", ctx.timeout_ms)
     s.add(*keep)
+    s.push()                            # same incremental SMT core as the explorer's path solver (better than nlsat on UF + products)
     s.add(z3.Not(z3.And(*terms)))
     t0 = time.time()
     r = str(s.check())
+    if os.environ.get("C09_DEBUG"):
+        print("  cone check: %d of %d constraints -> %s in %.1fs" % (len(keep), len(cf), r, time.time() - t0), flush=True)
     ctx.stats.queries += 1
     ctx.stats.solver_time += time.time() - t0
     if r == "unsat":
@@ -663,10 +667,7 @@ def case_iterate(ctx, mask_name, steps, geom, rel_set, route="sampler"):
         terms = [t if not isinstance(t, (bool, np.bool_)) else z3.BoolVal(bool(t)) for t in terms]
         known = {"iterate-all-zero-early-exit": region} if region is not None else None
         # the full claim in exact real arithmetic (decision boundaries included)
-        support = set()
-        for v_ in vals:
-            _fapps(V.to_real_term(v_), support)
-        if len(pos) > 1 and _holds_on_cone(ctx, terms, support):
+        if len(pos) > 1 and _holds_on_cone(ctx, terms):
             continue
         n_before = len(ctx.stats.candidates)
         if not ctx.check(k, terms, known=known):
